@@ -64,7 +64,7 @@ CHECKS["C03"] = {
             "Model tied to posterior_mode and the array functions; SPM/AFP/ACP/AOP checked against an independent Fraction posterior.",
     "design_ref": "DESIGN.md section 4, C03",
     "note": _NOTE + "float32 storage on the GP/GL path is named runtime behaviour (2e-5; mode compared only when the top-two margin exceeds it); "
-            "AFP sums to one, ACP to the ploidy and GPM <= SPM <= 1 are theorems (non-negativity of the posterior entries is a hypothesis).",
+            "AFP sums to one, ACP to the ploidy and GPM <= SPM <= 1 are theorems (non-negativity of the posterior entries follows from non-negative read cells, 0 <= F <= 1 and non-negative prior frequencies: posterior_nonneg).",
     "technique": "Lean 4 proof (first-maximum invariants of two folds, C11 enumeration order) + differential correspondence + CLI report-subset comparison",
 }
 
